@@ -144,7 +144,8 @@ def run(ctx):
         ok = c.args and isinstance(c.args[0], ast.Call) and astq.call_text(c.args[0]) == "self._render_part" and len(c.args[0].args) == 2
         ctx.ob(R1, rp.qual, f"`{astq.text(c)}` renders through _render_part", bool(ok), "" if ok else "a header part is assembled without the formatter", node=c)
     rets = [r for r in astq.walk_fn(rp.node) if isinstance(r, ast.Return)]
-    ok = all(isinstance(r.value, ast.Call) and isinstance(r.value.func, ast.Attribute) and r.value.func.attr == "join" and astq.text(r.value.args[0]) == "parts" for r in rets) and rets
+    plist = {astq.text(a.func.value) for a in appends}
+    ok = all(isinstance(r.value, ast.Call) and isinstance(r.value.func, ast.Attribute) and r.value.func.attr == "join" and astq.text(r.value.args[0]) in plist for r in rets) and rets and len(plist) == 1
     ctx.ob(R1, rp.qual, "result is the join of the rendered parts only", bool(ok))
     r1 = m.method(RF, "_render_part")
     rets = [r for r in astq.walk_fn(r1.node) if isinstance(r, ast.Return)]
@@ -233,8 +234,12 @@ def run(ctx):
     ctx.ob(R3, FP, "text writer is the UTF-8 stream writer", ok, astq.text(wstmt[-1].value) if wstmt else "missing")
     rh = m.method(RF, "render_headers")
     body = [s for s in rh.node.body if not isinstance(s, ast.Expr) or not isinstance(getattr(s, "value", None), ast.Constant)]
-    ok = len(body) >= 2 and isinstance(body[-1], ast.Return) and astq.text(body[-1].value).replace("'", '"') == '"\\r\\n".join(lines)' \
-        and isinstance(body[-2], ast.Expr) and astq.text(body[-2].value).replace("'", '"') == 'lines.append("\\r\\n")'
+    ok = False
+    if len(body) >= 2 and isinstance(body[-1], ast.Return) and isinstance(body[-1].value, ast.Call) and isinstance(body[-1].value.func, ast.Attribute) \
+            and body[-1].value.func.attr == "join" and getattr(body[-1].value.func.value, "value", None) == "\r\n" and isinstance(body[-2], ast.Expr) and isinstance(body[-2].value, ast.Call):
+        ln_ = astq.text(body[-1].value.args[0])
+        ap = body[-2].value
+        ok = astq.call_text(ap) == f"{ln_}.append" and getattr(ap.args[0], "value", None) == "\r\n"
     ctx.ob(R3, rh.qual, "header block ends with an empty line", ok, "; ".join(astq.text(s)[:50] for s in body[-2:]))
 
     # R4
@@ -264,7 +269,9 @@ def run(ctx):
         if ok:
             srcs = astq.sources_of(enc.node, r.value.elts[1])
             ok = len(srcs) == 1 and ct and srcs[0] is ct[0][2]
-            ok = ok and astq.text(r.value.elts[0]) == "body.getvalue()"
+            bodies = set(astq.assigned_from(enc.node, lambda v: isinstance(v, ast.Call) and astq.call_text(v) == "BytesIO"))
+            e0 = r.value.elts[0]
+            ok = ok and isinstance(e0, ast.Call) and isinstance(e0.func, ast.Attribute) and e0.func.attr == "getvalue" and astq.text(e0.func.value) in bodies
         ctx.ob(R4, enc.qual, "returns (body bytes, that content type)", bool(ok), astq.text(r), node=r)
     cb = m.func(f"{FP}.choose_boundary")
     txt = astq.text(cb.node)
@@ -277,7 +284,8 @@ def run(ctx):
     ctx.sites(R5, len(calls), 1, "encode_multipart_formdata call")
     for c in calls:
         st = astq.stmt_of(c)
-        ok = isinstance(st, ast.Assign) and isinstance(st.targets[0], ast.Tuple) and [astq.text(e) for e in st.targets[0].elts] == ["body", "content_type"]
+        ok = isinstance(st, ast.Assign) and isinstance(st.targets[0], ast.Tuple) and len(st.targets[0].elts) == 2
+        body_n, ct_n = ([astq.text(e) for e in st.targets[0].elts] if ok else (None, None))
         ctx.ob(R5, reb.qual, "(body, content_type) are taken from one encoder call", ok, astq.text(st)[:80], node=c)
         b = astq.kwarg(c, "boundary")
         ctx.ob(R5, reb.qual, "caller's multipart_boundary is forwarded", b is not None and astq.text(b) == "multipart_boundary", node=c)
@@ -285,7 +293,9 @@ def run(ctx):
     hdr_st = [n for n in astq.walk_fn(reb.node) if isinstance(n, ast.Assign) and isinstance(n.targets[0], ast.Subscript) and isinstance(n.targets[0].slice, ast.Constant) and n.targets[0].slice.value == "Content-Type"]
     ctx.sites(R5, len(hdr) + len(hdr_st), 1, "Content-Type header store")
     for c in hdr:
-        ok = len(c.args) > 1 and astq.text(c.args[1]) == "content_type" and astq.text(c.func.value) == 'extra_kw["headers"]'.replace('"', "'")
-        ctx.ob(R5, reb.qual, f"`{astq.text(c)}` carries the encoder's content type", ok, node=c)
+        kwd = set(astq.assigned_from(reb.node, lambda v: isinstance(v, ast.Dict)))
+        fv = c.func.value
+        ok = len(c.args) > 1 and astq.text(c.args[1]) == ct_n and isinstance(fv, ast.Subscript) and astq.text(fv.value) in kwd and getattr(fv.slice, "value", None) == "headers"
+        ctx.ob(R5, reb.qual, "the Content-Type header of the outgoing request carries the encoder's content type", ok, astq.text(c), node=c)
     bst = [n for n in astq.walk_fn(reb.node) if isinstance(n, ast.Assign) and isinstance(n.targets[0], ast.Subscript) and isinstance(n.targets[0].slice, ast.Constant) and n.targets[0].slice.value == "body"]
-    ctx.ob(R5, reb.qual, "the encoded body is what is sent", len(bst) == 1 and astq.text(bst[0].value) == "body")
+    ctx.ob(R5, reb.qual, "the encoded body is what is sent", len(bst) == 1 and astq.text(bst[0].value) == body_n)
